@@ -106,6 +106,10 @@ class TagWorker(Worker):
             self._fz = None
 
     def _preprocess(self, x):
+        if root(x) is None:
+            # like any validating preprocess: it only understands requests.  (The library must never hand it an upstream
+            # failure or an end marker.)
+            raise TypeError(f'preprocess of {self.tag} got a non-request object of type {type(x).__name__}')  # SITE-MARK-7f3a strict
         for a, arg in plan_for(x, self.tag):
             if a == 'reject':
                 raise Reject(self.tag, tid(x))  # SITE-MARK-7f3a preprocess
